@@ -257,6 +257,8 @@ def run(ctx):
                 dx, dy = nfa_to_dfa_def(x), nfa_to_dfa_def(y)
                 if dx and dy:
                     check_pair(ctx, dx, dy, tag)
+            x, y, tag = gen.prefix_agreeing_lassos(rng)
+            check_pair(ctx, nfa_to_dfa_def(x), nfa_to_dfa_def(y), tag)
     # operands over different alphabets are refused
     for sa, sb in [("ab", "a"), ("a", "ab"), ("ab", "bc"), ("ab", "cd"), ("abc", "ab"), ("ab", "abc")] * ctx.n(2, 10):
         da, db = gen.rand_dfa_def(rng, alphabet=sa), gen.rand_dfa_def(rng, alphabet=sb)
